@@ -767,7 +767,7 @@ func c16RaceCheck(c c16RaceCase) *vResult {
 	cw := c16NewWorld(false)
 	defer cw.w.Close()
 	defer cw.oauth.srv.Close()
-	cw.w.state.remoteDBQueryTimeout = 2 * time.Second
+	cw.w.state.remoteDBQueryTimeout = vPrimaryPatience
 	var wg sync.WaitGroup
 	start := make(chan struct{})
 	for _, r := range c.Reqs {
